@@ -13,10 +13,12 @@ import aioftp.common
 
 PROPERTY = "C16"
 LEVEL = "fault_enumeration"
-RULE = ("every combination of idle_timeout in {None, 4}, socket_timeout in {None, 3}, wait_future_timeout in {1, 2.5} x corpus "
+RULE = ("every combination of idle_timeout in {None, 4}, socket_timeout in {None, 3}, wait_future_timeout in {1, 2.5, None} x corpus "
         "scripts x a stall delivered right after network event k (every k, strided in quick): the peer goes completely silent "
         "(keeps its sockets, sends nothing, reads nothing) or silent-but-reading; plus 'never connects the data channel', a chatty "
-        "session that sends a command every idle_timeout - delta, and a flow-controlled download whose peer stops reading.  "
+        "session that sends a command every idle_timeout - delta, a flow-controlled download whose peer stops reading, a reply flood "
+        "whose peer never reads its control connection, and a data connection made late but inside the wait (any time when the wait "
+        "is unlimited: the transfer is served).  "
         "Every StreamIO read/readline/write of the server is recorded with its stream (control/data) and start time; expected "
         "release = min over the operations pending at the stall of start + configured timeout for (channel, direction) "
         "[control read: idle_timeout, control write and data read/write: socket_timeout].  Oracle in virtual time, eps = 4 x "
@@ -27,7 +29,7 @@ RULE = ("every combination of idle_timeout in {None, 4}, socket_timeout in {None
 ASSUMPTIONS = ["virtual time; commands are delivered in one segment (MSS 1460) so that 'arrival of the command line' is one event",
                "mapping of configured values to channel/direction as documented: idle_timeout = control reads, socket_timeout = "
                "everything else"]
-REQUIRED_MONITORS = ["wait_future_425", "chatty_survives", "ledger_after_release", "blackbox_bounds"]
+REQUIRED_MONITORS = ["wait_future_425", "chatty_survives", "ledger_after_release", "blackbox_bounds", "late_connect"]
 ANCHOR_FUNCTIONS = ['common.py:_with_timeout.<locals>.decorator.<locals>.wrapper', 'server.py:ConnectionConditions.__call__.<locals>.wrapper']
 EXHAUSTIVE = {"quick": False, "thorough": True}
 
@@ -196,6 +198,43 @@ async def execute(net, hyg, plan):
                 if r3 in (None, "EOF") or r3.code != "257":
                     viol.append({"key": "session-lost-after-425", "msg": f"{where}: PWD -> {r3}"})
             s.peer.cut("fin")
+        elif kind == "lateconnect":
+            # the data connection is made `delay` seconds after the command: inside the configured wait (or any time when
+            # the wait is unlimited) the transfer must go through
+            s = Session(net, 2121)
+            await s.run([["connect"], ["login"], ["cmd", "TYPE I"], [plan.get("pcmd", "epsv")]])
+            verb, delay = plan["verb"], plan["delay"]
+            s.peer.send({"RETR": "RETR /f.bin", "STOR": "STOR /late.bin"}.get(verb, verb + " /dir"))
+            r1 = await s.peer.read_reply(wait=10)
+            await asyncio.sleep(delay)
+            where = f"cfg {cfg} {verb}, data connection made {delay}s after the command"
+            mon["late_connect"] = mon.get("late_connect", 0) + 1
+            fired = True
+            try:
+                dr, dw = await s.peer.open_data(s.pasv_port)
+            except OSError as e:
+                dr = dw = None
+                viol.append({"key": "late-connect-refused", "msg": f"{where}: listener gone ({e!r}) after 150"})
+            if dw is not None:
+                if verb == "STOR":
+                    dw.write(b"z" * 5000)
+                    dw.close()
+                    got = None
+                else:
+                    got, _status = await s.peer.read_data(dr, wait=10)
+                r2 = await s.peer.read_reply(wait=10)
+                codes = [r.code if r not in (None, "EOF") else str(r) for r in (r1, r2)]
+                if codes not in (["150", "226"], ["150", "200"]):
+                    viol.append({"key": "late-connect-not-served" if "425" in codes else "late-connect-wrong-replies",
+                                 "msg": f"{where}: replies {codes} (wait_future_timeout {cfg['wft']})"})
+                elif verb == "RETR" and got != corpus_tree([""])["/f.bin"]:
+                    viol.append({"key": "late-connect-wrong-data", "msg": f"{where}: {len(got or b'')} bytes"})
+                elif verb == "STOR" and w.tree().get("/late.bin") != b"z" * 5000:
+                    viol.append({"key": "late-connect-wrong-data", "msg": f"{where}: stored {len(w.tree().get('/late.bin') or b'')} bytes"})
+                r3 = await s.peer.cmd("PWD", wait=10)
+                if r3 in (None, "EOF") or r3.code != "257":
+                    viol.append({"key": "session-lost-after-late-connect", "msg": f"{where}: PWD -> {r3}"})
+            s.peer.cut("fin")
         elif kind == "chatty":
             s = Session(net, 2121)
             await s.run([["connect"], ["login"]])
@@ -293,15 +332,35 @@ def gen_cases(tier, seed):
         ["login_quit", "walk", "stor_slow", "stor_pasv", "retr_pasv", "retr_epsv_after", "mlsd", "list", "two_transfers", "retr_huge",
          "rename", "pasv_twice", "appe"]
     for cfg in cfgs:
-        for name in scripts:
+        for name in scripts + ["flood"]:
             for action in ("stall-noread", "stall"):
                 stride = (11 if name == "retr_huge" else 4) if tier == "quick" else (5 if name == "retr_huge" else 1)
+                if name == "flood":
+                    # the peer never reads its replies (every buffer on the way back fills up) and then goes silent
+                    if action == "stall" or cfg["wft"] != 1:
+                        continue
+                    stride = 131 if tier == "quick" else 17
                 cases.append({"kind": "enum", "stride": stride, "phase": (seed + len(cases)) % stride,
                               "plan": {"kind": "stall", "cfg": cfg, "script": name, "action": action, "seed": seed}})
         for verb in ("RETR", "LIST", "STOR"):
             cases.append({"kind": "single", "plan": {"kind": "noconnect", "cfg": cfg, "verb": verb, "seed": seed}})
+        for verb in ("RETR", "MLSD", "STOR"):
+            for delay in (0.0, cfg["wft"] * 0.5, cfg["wft"] - 0.01):
+                cases.append({"kind": "single", "plan": {"kind": "lateconnect", "cfg": cfg, "verb": verb, "delay": round(delay, 4),
+                                                         "pcmd": rng.choice(["pasv", "epsv"]), "seed": seed}})
         if cfg["idle"]:
             for delta in (0.01, 0.5, 2.0):
                 cases.append({"kind": "single", "plan": {"kind": "chatty", "cfg": cfg, "delta": delta, "rounds": 6,
                                                          "cmds": ["PWD", "SYST", "TYPE I", "NOOP", "CWD /dir", "MLST /f.bin"], "seed": seed}})
+    # wait_future_timeout=None: the wait for the data connection is not limited
+    for idle in (None, 4):
+        for sock in (None, 3):
+            cfg = {"idle": idle, "sock": sock, "wft": None}
+            for verb in ("RETR", "MLSD", "STOR"):
+                for delay in ((0.0, 0.4, 3.0) if idle else (0.4, 3.0, 30.0)):
+                    cases.append({"kind": "single", "plan": {"kind": "lateconnect", "cfg": cfg, "verb": verb, "delay": delay,
+                                                             "pcmd": rng.choice(["pasv", "epsv"]), "seed": seed}})
+            for name in (["walk", "retr_pasv"] if tier == "quick" else scripts):
+                cases.append({"kind": "enum", "stride": 5 if tier == "quick" else 2, "phase": seed % 2,
+                              "plan": {"kind": "stall", "cfg": cfg, "script": name, "action": "stall-noread", "seed": seed}})
     return cases
